@@ -40,6 +40,23 @@ macro_rules! by_fmt {
     } };
 }
 
+
+/// every region of the database: (name, start, length, reserved), sorted by name
+fn region_snapshot(db: &Database) -> Vec<(String, usize, usize, usize)> {
+    let regs = db.regions();
+    let mut v: Vec<(String, usize, usize, usize)> = regs.index_to_region().iter().flatten().map(|r| { let m = r.meta(); (m.id().to_string(), m.start(), m.len(), m.reserved()) }).collect();
+    v.sort();
+    v
+}
+
+/// C13: a refused import has no effect on any region
+fn refused_import_effect(before: &[(String, usize, usize, usize)], after: &[(String, usize, usize, usize)], what: &str) -> Option<String> {
+    if before == after { return None; }
+    let extra: Vec<String> = after.iter().filter(|x| !before.contains(x)).map(|x| format!("{}@{} len {}", x.0, x.1, x.2)).collect();
+    let gone: Vec<String> = before.iter().filter(|x| !after.contains(x)).map(|x| format!("{}@{} len {}", x.0, x.1, x.2)).collect();
+    Some(format!("C13: the refused import ({what}) changed the regions of the database: new/changed [{}], gone/changed [{}]", extra.join(", "), gone.join(", ")))
+}
+
 fn outcome(r: &Result<(usize, Vec<u64>), Error>, had: usize, n: usize) -> String {
     match r {
         Ok((len, items)) => {
@@ -77,18 +94,21 @@ fn exec_corrupt(tmp: &std::path::Path, ws: &[&str]) -> String {
         let db = Database::open(dir.path()).unwrap();
         let (id, len) = by_fmt!(f, create_corrupt, &db, ec, ver, n).unwrap();
         db.flush().unwrap();
+        let before = region_snapshot(&db);
         let first = by_fmt!(f, open_len, &db, er, ver);
         let o1 = outcome(&first, n, n);
         drop(first);
+        let c13 = if o1.starts_with("err") { refused_import_effect(&before, &region_snapshot(&db), &o1) } else { None };
         let region = match db.get_region(&id) {
             None => "gone",
             Some(r) => if r.meta().len() == len { "intact" } else { "changed" },
         };
-        (o1, region.to_string())
+        (o1, region.to_string(), c13)
     }));
     match r {
-        Ok((o1, region)) => {
+        Ok((o1, region, c13)) => {
             let mut fails = vec![];
+            if let Some(m) = c13 { fails.push(m); }
             // created and reopened through the same entry point: the header matches, the only thing wrong is the length
             if ec == er {
                 if o1 != "err:CorruptedRegion" { fails.push(format!("C14: same version and format, data region with stray bytes: {o1} instead of CorruptedRegion")); }
@@ -112,8 +132,13 @@ pub fn exec(tmp: &std::path::Path, line: &str) -> String {
         let db = Database::open(dir.path()).unwrap();
         by_fmt!(fc, create, &db, ec, vc, n).unwrap();
         db.flush().unwrap();
+        let before = region_snapshot(&db);
         let first = by_fmt!(fr, open_len, &db, er, vr);
         let o1 = outcome(&first, n, n);
+        drop(first);
+        let c13 = if o1.starts_with("err") { refused_import_effect(&before, &region_snapshot(&db), &o1) } else { None };
+        // a stored vector without elements: "kept the empty one", "created" and "discarded" look the same — one name
+        let o1 = if n == 0 && matches!(o1.as_str(), "kept:0" | "fresh" | "discarded") { "empty".to_string() } else { o1 };
         // what is stored now: n elements unless the reopen discarded them
         let had = if o1 == "discarded" { 0 } else { n };
         let second = by_fmt!(fc, open_len, &db, ec, vc);
@@ -126,16 +151,18 @@ pub fn exec(tmp: &std::path::Path, line: &str) -> String {
         };
         // an empty vector cannot tell "kept an empty one" from "discarded" from "created": one name
         let o2 = if matches!(o2.as_str(), "kept:0" | "discarded" | "fresh") { "empty".to_string() } else { o2 };
-        (o1, o2)
+        (o1, o2, c13)
     }));
     match r {
-        Ok((o1, o2)) => {
+        Ok((o1, o2, c13)) => {
             let same = vc == vr && fc == fr;
             let mut fails = vec![];
-            if same && o1 != format!("kept:{n}") { fails.push(format!("C14: same version and format, created through {} and reopened through {}: {o1} instead of the stored contents", ws[2], ws[5])); }
+            if let Some(m) = c13 { fails.push(m); }
+            let kept = if n == 0 { "empty".to_string() } else { format!("kept:{n}") };
+            if same && o1 != kept { fails.push(format!("C14: same version and format, created through {} and reopened through {}: {o1} instead of the stored contents", ws[2], ws[5])); }
             if !same && !er && !(o1 == "errVersion" || o1 == "errFormat") { fails.push(format!("C14: plain import with a different version/format answered {o1}")); }
-            if !same && !er && o2 != format!("kept:{n}") && (vc, fc) != (vr, fr) { fails.push(format!("C14: after a refused plain import the data is not intact: {o2}")); }
-            if !same && er && o1 != "discarded" { fails.push(format!("C14: forced import with a different version/format answered {o1}")); }
+            if !same && !er && o2 != kept && (vc, fc) != (vr, fr) { fails.push(format!("C14: after a refused plain import the data is not intact: {o2}")); }
+            if !same && er && o1 != "discarded" && !(n == 0 && o1 == "empty") { fails.push(format!("C14: forced import with a different version/format answered {o1}")); }
             let o = if fails.is_empty() { "ok".to_string() } else { format!("fail:{}", fails.join("; ")) };
             format!("{o1} | then {o2} | O {o}")
         }
@@ -148,6 +175,10 @@ pub fn all_lines() -> Vec<String> {
     for fc in FORMATS { for ec in ["plain", "forced"] { for fr in FORMATS { for er in ["plain", "forced"] { for dv in [0i32, 1, 2] {
         let n = if (fc.len() + fr.len() + dv as usize) % 2 == 0 { 10 } else { 2500 };
         v.push(format!("imp {fc} {ec} 5 {fr} {er} {} {n}", 4 + dv));
+    } } } } }
+    // the same table on a vector that was created and flushed but never filled (the region holds a header only)
+    for fc in FORMATS { for ec in ["plain", "forced"] { for fr in FORMATS { for er in ["plain", "forced"] { for dv in [0i32, 1, 2] {
+        v.push(format!("imp {fc} {ec} 5 {fr} {er} {} 0", 4 + dv));
     } } } } }
     for f in ["bytes", "zc"] { for ec in ["plain", "forced"] { for er in ["plain", "forced"] { for n in [3usize, 700] {
         v.push(format!("impc {f} {ec} {er} 5 {n}"));
